@@ -53,12 +53,14 @@ CHECKS = {
             'finding).',
             '4/C05', TRUSTED),
     'C06': ('exploration',
-            'libFuzzer (clang ASan + UBSan subset) on nine decoder-family targets seeded with run-time generated valid '
-            'objects; MemorySanitizer replay of the grown corpora; hostile TLS peer (structure-aware mutations of real '
+            'libFuzzer (clang ASan + UBSan subset) on ten decoder-family targets seeded with run-time generated valid '
+            'objects; structured DER mutants (every field resized, lengths recomputed) executed under ASan/UBSan; '
+            'MemorySanitizer replay of corpora and mutants (thorough: also valgrind memcheck); hostile TLS peer (structure-aware mutations of real '
             'flights through a man-in-the-middle and an interposed tls13_record_encrypt) under ASan with a TLS_CONNECT '
             'snapshot monitor',
             'Every decoding / verifying / printing family (ASN.1, certificates, extensions, CRL+request, CMS, key containers, '
-            'signatures+ciphertexts, PEM/base64/hex with caller-declared capacities, TLS records/handshake/extensions) is '
+            'signatures+ciphertexts, PEM/base64/hex with caller-declared capacities, TLS records/handshake/extensions, SM9 '
+            'verification/decryption/key exchange) is '
             'fuzzed into exactly-sized blocks; all three protocols, both roles, receive mutated hello / certificate / key '
             'exchange flights (repeated extensions, oversized lists, length-field surgery, truncation, junk); any sanitizer '
             'report, abort, hang or overwritten TLS_CONNECT member is a violation.',
@@ -107,7 +109,9 @@ CHECKS = {
             'thorough), padding 0..255, boundary sequence numbers, exact-size outputs; per short record every bit of body '
             'and authenticated header, wire-parser truncation/extension, inconsistent/oversized padding, all-padding inner '
             'plaintext, 60+ other sequence numbers, other keys must fail; after real handshakes duplicated, swapped and '
-            'dropped application-data records must surface no byte at or after the fault.',
+            'dropped application-data records must surface no byte at or after the fault; tls_seq_num_incr equals +1 on every '
+            'carry chain, the sequence numbers in both connection objects are 0,1,2,.. over 256..66000 records, and a '
+            'record replayed at those distances is refused.',
             '4/C11', TRUSTED),
     'C12': ('exploration',
             'sanitized execution with an independent on-curve / range predicate on Python integers applied to one value '
@@ -170,17 +174,20 @@ CHECKS = {
             'interposed getentropy (per-thread deterministic streams, draw log, injected failure at draw i) and virtual '
             'clock in the sanitized process; outputs compared across streams and runs; send() calls after the failed draw '
             'classified by record type',
-            'For 19 randomised primitives (SM2 keygen/sign x4/encrypt x4, PKCS#8 encryption, SM9 keygen/sign/encrypt/exchange, '
-            'tls_cbc_encrypt, TLS randoms and pre-master secret) and for each handshake role of the three protocols: different '
+            'For 22 randomised primitives (SM2 keygen/sign x4/encrypt x4, PKCS#8 encryption, SM9 keygen/sign/encrypt/exchange, '
+            'tls_cbc_encrypt, TLS randoms and pre-master secret, X.509 certificate signing, CMS sign and envelop) and for each handshake role of the three protocols: different '
             'streams give different ephemeral values, the same stream and clock give identical bytes, repeated operations '
-            'never repeat an ephemeral value, and for EVERY draw index of the clean run a failure of that draw must make the '
+            'never repeat an ephemeral value, and for EVERY draw index of the clean run - and of runs whose first candidates '
+            'are forced out of range so that rejection sampling retries - a failure of that draw must make the '
             'operation / handshake report failure with nothing but alerts sent afterwards.',
             '4/C18', TRUSTED),
     'C19': ('exploration',
             'file-descriptor level capture of stdout/stderr around each operation in the sanitized process, scanned for '
             'every secret the harness knows (raw and hex layouts); scanner self-tested on an explicit key print',
             'Handshakes of all three protocols (both auth modes, plus application data, plus tampered-flight failure paths), '
-            'SM2 key generation/import/sign/decrypt/ECDH, PKCS#8 encrypt/open (right, wrong password, truncated), SM9 '
+            'SM2 key generation/import/sign/decrypt/ECDH, PKCS#8 encrypt/open (right, wrong password, truncated), import of '
+            'structurally valid but inconsistent key containers through all four paths, CMS sign/envelop/open and X.509 '
+            'signing with known signer, recipient and content keys (good, wrong key, bit flips), SM9 '
             'keygen/extract/sign/encrypt/decrypt, record unprotection (good and bad records); secrets searched: private '
             'scalars (both byte orders), nonces, master secret, key block and slices, TLS 1.3 traffic keys recovered by '
             'inverting the SM4 key schedule of the connection object, IVs, passwords, plaintexts.',
@@ -188,8 +195,9 @@ CHECKS = {
     'C20': ('exploration',
             'ThreadSanitizer (gcc, static build of the working tree) on a C stress harness with seeded per-thread scripts '
             'and shim-injected yields; monitor: per-thread result digest equals the digest of the same script run alone; '
-            'the same harness under AddressSanitizer',
-            '2..16 threads run hashing, SM4 modes, SM2 keygen/sign/verify/encrypt/decrypt and contexts, SM9, key DER round '
+            'the same harness under AddressSanitizer and (thorough) under helgrind on an uninstrumented build',
+            '2..16 threads run hashing, SM4 modes, AES/ZUC/ChaCha20, CCM/XTS/CFB/OFB, codecs, KDFs, time conversion, X.509/CMS '
+            'signing and printing into private streams, ECDH, SM9 exchange, SM2 keygen/sign/verify/encrypt/decrypt and contexts, SM9, key DER round '
             'trips, X.509 chain verification incl. failing paths, TLS record protection, and pairwise complete handshakes '
             '(3 protocols, server-auth and mutual) with application data on their own socketpairs; any TSan report with a '
             'library frame, any digest mismatch against the sequential replay, or any ASan/UBSan report is a violation.',
